@@ -49,10 +49,12 @@ def expressions(rnd, objs, plain, feats_by_class):
             ex += ['%s[0].' % o, '%s().' % o, 'for x in %s:\n    x.' % o, 'len(%s)' % o,
                    'list(%s)[0].' % o, '[y for y in %s][0].' % o, '(%s if %s else 1).' % (o, o),
                    '%s.prop.' % o, '%s.nd.' % o, '%s.dd.' % o, '%s.meth(' % o, '%s(' % o,
+                   '%s.lcm.' % o, '%s.lcm(' % o, '%s.csm' % o, '%s.lprop.' % o, '%s.lcm' % o,
                    'not %s' % o, '%s.i_list[0].' % o, 'next(%s).' % o, 'bool(%s)' % o,
                    'x, y = %s\nx.' % o, '%s.dynamic_one.' % o]
         elif o.startswith('K'):
-            ex += ['%s.mprop.' % o, '%s.mnd.' % o, '%s.prop.' % o, '%s.nd.' % o, '%s.c_leaf.' % o,
+            ex += ['%s.lcm.' % o, '%s.csm(' % o, '%s.lprop' % o,
+                   '%s.mprop.' % o, '%s.mnd.' % o, '%s.prop.' % o, '%s.nd.' % o, '%s.c_leaf.' % o,
                    '%s().' % o, '%s.cmeth().' % o, '%s.meta_method(' % o]
     ex += [p[0] for p in plain] + [p[0] + '.' for p in plain]
     return ex
@@ -83,7 +85,7 @@ def run(spec):
     namespace = {k: ns[k] for k in objs}
     exprs = expressions(rnd, objs, plain, feats_by_class)
     rnd.shuffle(exprs)
-    counted_present = any(set(f) & {'property', 'nondata_desc', 'data_desc', 'meta_property',
+    counted_present = any(set(f) & {'property', 'nondata_desc', 'data_desc', 'meta_property', 'sub_builtin_desc',
                                     'meta_desc', 'getitem', 'iter', 'next', 'call', 'len', 'bool'}
                           for f in feats_by_class.values())
     control_moved = False
@@ -92,7 +94,7 @@ def run(spec):
     try:
         for safe in (True, False):
             jedi.settings.allow_unsafe_interpreter_executions = not safe
-            for e in exprs[:60]:
+            for e in exprs[:70]:
                 lines = e.split('\n')
                 if e.endswith('.'):
                     methods = ['complete']
